@@ -14,20 +14,15 @@ programs on which the interpreter then faults with a static-class error (see Pro
 -/
 namespace TrustVerif.StCore
 
-/-- `literals.rs: smallest_int_type_for_literal` for a decimal literal, cut at `i32::MAX`
-because `lower_literal` rejects larger untyped literals ("integer literal out of range"). -/
-def smallestSigned (v : Int) : Option IKind :=
-  if v < 0 then none
-  else if v ≤ 127 then some .sint
-  else if v ≤ 32767 then some .int
-  else if v ≤ i32Max then some .dint
-  else none
+/-- The literal parser goes through `i64` (`parse_int_literal`: `str::parse::<i64>` on the digits,
+sign applied afterwards): a magnitude above `i64::MAX` cannot be written, typed or not. -/
+def writable (v : Int) : Bool := decide (-i64Max ≤ v) && decide (v ≤ i64Max)
 
 /-- `expr.rs: check_expression` restricted to the fragment; `none` = an error diagnostic (or a
 lowering error) somewhere inside. -/
 def inferL (Γ : Ctx) : Expr → Option Ty
   | .lit none v => (smallestSigned v).map Ty.int
-  | .lit (some k) v => if k.inRange v then some (.int k) else none
+  | .lit (some k) v => if k.inRange v && writable v then some (.int k) else none
   | .blit _ => some .bool
   | .var x => Γ.lookup x
   | .un .neg e =>
@@ -99,7 +94,7 @@ assignable to the selector type. -/
 def LabLit.ok (sel : IKind) (a : LabLit) : Bool :=
   match a.ty with
   | none => decide (-i32Max ≤ a.v) && decide (a.v ≤ i32Max)
-  | some k => k.inRange a.v && assignable (.int sel) (.int k)
+  | some k => k.inRange a.v && writable a.v && assignable (.int sel) (.int k)
 
 /-- `stmt.rs: record_case_label_value` / `record_case_label_range`; `none` = "duplicate CASE label". -/
 def Tracker.add (t : Tracker) : Label → Option Tracker
@@ -200,7 +195,8 @@ end
 def VarDecl.ok (d : VarDecl) : Bool :=
   match d.ty with
   | .bool => d.init = 0 || d.init = 1
-  | .int k => k.inRange d.init && (d.typedInit || (decide (-i32Max ≤ d.init) && decide (d.init ≤ i32Max)))
+  | .int k => k.inRange d.init && writable d.init
+      && (d.typedInit || (decide (-i32Max ≤ d.init) && decide (d.init ≤ i32Max)))
 
 def distinctNames : List String → Bool
   | [] => true
@@ -210,7 +206,7 @@ def distinctNames : List String → Bool
 on the whole syntax tree, also where the checker does not look). -/
 def Expr.lowerable : Expr → Bool
   | .lit none v => decide (0 ≤ v) && decide (v ≤ i32Max)
-  | .lit (some k) v => k.inRange v
+  | .lit (some k) v => k.inRange v && writable v
   | .blit _ => true
   | .var _ => true
   | .un _ e => e.lowerable
